@@ -29,6 +29,7 @@ import LogosModel.Panic
 import LogosModel.Utf8Enc
 import LogosModel.Chunked
 import LogosModel.Reslice
+import LogosModel.CallbackEmit
 import LogosModel.PrioritySat
 import LogosModel.Look.Utf8ClosedC
 import Std.Data.HashMap
@@ -710,6 +711,28 @@ def showRTys : TypeSubst.RTys → Nat × List String
   | .cons t ts => let r := showRTys ts; (r.1 + 1, showRTy t ++ r.2)
 end
 
+/-- "CBEMIT tok tok ..": the token tree of an inline callback body (`i:NAME`, `p:<char code>`, `l`, `(` .. `)`);
+answer: how the repaired / the original generator emits it -/
+partial def parseCToks : List String → CallbackEmit.CToks × List String
+  | [] => (.nil, [])
+  | ")" :: rest => (.nil, rest)
+  | "(" :: rest =>
+    let (inner, rest1) := parseCToks rest
+    let (tl, rest2) := parseCToks rest1
+    (.cons (.group inner) tl, rest2)
+  | t :: rest =>
+    let tok : CallbackEmit.CTok :=
+      if t.startsWith "i:" then .ident (t.drop 2).toString
+      else if t.startsWith "p:" then .punct (Char.ofNat ((t.drop 2).toString.toNat?.getD 0))
+      else .lit
+    let (tl, rest1) := parseCToks rest
+    (.cons tok tl, rest1)
+
+def cbEmitAnswer (args : List String) : String :=
+  let body := (parseCToks args).1
+  let sh := fun (e : CallbackEmit.Emitted) => match e with | .pasted => "pasted" | .closureCall => "closure"
+  s!"fixed={sh (CallbackEmit.emitFixed body)} found={sh (CallbackEmit.emitFound body)}"
+
 /-- "TYSUBST <entry> ; <entry> ... # <field> ; <field> ..." with an entry `-` (no item) or a type in prefix notation -/
 def tysubstAnswer (args : List String) : String :=
   let joined := " ".intercalate args
@@ -963,6 +986,9 @@ partial def run (h : IO.FS.Stream) (out : IO.FS.Stream) (cur : Case) (tbl : Std.
     run h out cur tbl
   | ["Q", "CPANIC", hexsrc, nexts] =>
     out.putStrLn s!"{cur.name} CPANIC {hexsrc} {nexts} : {cpanicAnswer cur hexsrc nexts}"
+    run h out cur tbl
+  | "Q" :: "CBEMIT" :: args =>
+    out.putStrLn s!"{cur.name} CBEMIT {" ".intercalate args} : {cbEmitAnswer args}"
     run h out cur tbl
   | "Q" :: "TYSUBST" :: args =>
     out.putStrLn s!"{cur.name} TYSUBST {" ".intercalate args} : {tysubstAnswer args}"
